@@ -1,0 +1,7 @@
+//go:build !verif
+
+package hermes
+
+func vprobe(point string, g *GlobalVarsMain, extra ...interface{}) {}
+func vevent(point string, kv ...interface{})                       {}
+func vgate(point string, key string)                               {}
